@@ -163,6 +163,12 @@ def run(ctx):
                 L = r.choice([1, 79, 80, 81, 159, 160, 161, 240])
                 v["sequence"] = "".join(r.choice("ACGT") for _ in range(L))
                 rec["texts"][1] = v["sequence"]
+        if fmt_name == "bed12" and recs and r.random() < 0.3:
+            # a feature without blocks: empty block lists, in the last row only or in several rows
+            for rec in ([recs[-1]] if r.random() < 0.6 else r.sample(recs, r.randint(1, len(recs)))):
+                rec["values"]["block_count"], rec["values"]["block_sizes"], rec["values"]["block_starts"] = 0, [], []
+                rec["texts"][9], rec["texts"][10], rec["texts"][11] = "0", "", ""
+            ctx.count("bed12_rows_without_blocks")
         # a float column holding values that are equal as numbers but different as doubles and as text (both zeros), or the same value many times
         kinds_ = WRITE_SPECS[fmt_name][2] or ""
         if "f" in kinds_ and len(recs) >= 2 and r.random() < 0.3:
@@ -393,6 +399,60 @@ def run(ctx):
         header = "##fileformat=VCFv4.1\n" + "\t".join("#CHROM POS ID REF ALT QUAL FILTER INFO FORMAT".split()) + "\n"
         exp = header + "".join("\t".join([x["texts"][0], str(x["values"]["position"] + 1)] + x["texts"][2:8]) + "\n" for x in recs)
         ctx.check("vcf-entry", got == exp, "vcf_entry/bytes-not-canonical", "constructed VCFEntry written: got %r expected %r" % (got[-200:], exp[-200:]), {"seed": case["seed"], "got": got[-400:], "expected": exp[-400:]}, ("vcfentry", case["seed"]))
+
+    def source_header_pieces(case):
+        """a table that carries the header of the file it was read from (VCF ## lines, SAM @ lines), written whole and in pieces some of which are empty (also the first):
+        the same bytes every time, the source's header exactly once"""
+        r = random.Random(case["seed"])
+        fname = case["fmt"]
+        fmt = FORMATS[fname]
+        fc = make_file(fname, r, r.randint(2, 6), "normal", {"noncanon": False, "tags": True})
+        src = ctx.path("hdr" + fmt.suffix)
+        with open(src, "wb") as f:
+            f.write(fc["data"])
+        bt = tables.get_buffer_type(fmt.buffer) if fmt.buffer else None
+        t = bnp.open(src, buffer_type=bt).read() if bt else bnp.open(src).read()
+        n = len(t)
+        def written(pcs, tag):
+            p_ = ctx.path("hp" + tag + fmt.suffix)
+            with (bnp.open(p_, "w", buffer_type=bt) if bt else bnp.open(p_, "w")) as f:
+                for pc in pcs:
+                    f.write(pc)
+            return read_bytes(p_)
+        k = r.randint(1, n - 1)
+        none = np.zeros(n, dtype=bool)
+        try:
+            one_ = written([t], "one")
+            variants = {"empty-first": [t[:0], t], "empty-filter-first": [t[none], t[:k], t[k:]], "empty-in-the-middle": [t[:k], t[k:k], t[k:]], "empty-last": [t, t[n:]]}
+            outs = {name: written(pcs, name) for name, pcs in variants.items()}
+        except Exception as e:
+            if not originates_in_library(e):
+                raise
+            et, site = exc_site(e)
+            ctx.violation("%s/source-header-pieces-write-raised:%s@%s" % (fname, et, site), "writing pieces of a table read from a file raised %s: %s" % (et, str(e)[:100]), {"format": fname, "seed": case["seed"]})
+            return
+        hdr = fc["header"]
+        ctx.check("header-once", one_.startswith(hdr) and one_.count(hdr.split("\n")[0] + "\n") == 1, "%s/source-header-not-kept:single-write" % fname, "one write of a table read from a file starts with %r, the file's header is %r" % (one_[:80], hdr[:80]), {"format": fname, "seed": case["seed"]}, (fc["data"], "one"))
+        for name, got in outs.items():
+            ctx.check("split==single", got == one_, "%s/pieces-with-an-empty-one-differ-from-single-write:%s" % (fname, name), "pieces (%s) of a table carrying its source's header: got %r, one write gives %r" % (name, got[:160], one_[:160]),
+                      {"format": fname, "seed": case["seed"], "pieces": name, "got": got[:600], "expected": one_[:600]}, (fc["data"], name, k))
+        if fname == "vcf":
+            # a write that is refused must leave the table as it was (an eagerly read table with typed INFO is refused by the writer: C05's listed finding)
+            E = bnp.open(src, lazy=False).read()
+            pos0 = np.asarray(E.position).tolist()
+            try:
+                written([E], "eager")
+                refused = False
+            except Exception as e:
+                if not originates_in_library(e):
+                    raise
+                refused = True
+            ctx.check("header-once", np.asarray(E.position).tolist() == pos0, "vcf/table-changed-by-a-%s-write" % ("refused" if refused else "completed"), "positions %r became %r through a %s write" % (pos0[:4], np.asarray(E.position).tolist()[:4], "refused" if refused else "completed"),
+                      {"format": fname, "seed": case["seed"], "refused": refused}, (fc["data"], "eager-write"))
+        ctx.count("source_header_pieces")
+
+    for i in range(ctx.share(ctx.pick(64, 1200))):
+        ctx.run_case(source_header_pieces, {"seed": rng.randrange(2 ** 40), "fmt": ["vcf", "sam", "vcf_noinfo"][i % 3]})
 
     fmts = list(WRITE_SPECS)
     for i in range(ctx.share(ctx.pick(40 * len(fmts), 600 * len(fmts)))):
